@@ -369,6 +369,30 @@ fn token_roundtrip(c: &TokenCase) -> Outcome {
     Outcome::pass_with(special, classes)
 }
 
+/// Fuzz entry: the bytes are split into header values and a query string at 0xff / 0xfe
+/// separators: `<auth value> 0xff <auth value> .. 0xfe <query>`.
+pub fn fuzz_request(data: &[u8]) -> Outcome {
+    let (hdrs, query) = match data.iter().position(|b| *b == 0xfe) {
+        Some(p) => (&data[..p], Some(data[p + 1..].to_vec())),
+        None => (data, None),
+    };
+    let headers: Vec<Hdr> = if hdrs.is_empty() { vec![] } else { hdrs.split(|b| *b == 0xff).take(4).map(|v| Hdr::Auth(v.to_vec())).collect() };
+    let c = Case { headers, name_spelling: 0, absolute: false, path: 0, query, version: 0 };
+    match run_case(&c) {
+        Outcome::Excluded(_) => Outcome::pass(false),
+        o => o,
+    }
+}
+
+pub fn fuzz_request_seeds() -> Vec<Vec<u8>> {
+    vec![
+        b"Bearer abc".to_vec(),
+        b"Basic x\xffbearer tok en".to_vec(),
+        b"\xfetoken=a%20b+c&x=1".to_vec(),
+        b"Digest q\xfe%74oken=zz&token=%zz".to_vec(),
+    ]
+}
+
 pub fn run(ctx: &Ctx) {
     ctx.rule("0..4 Authorization header values from a grammar (Bearer in several case mixes, other schemes, near misses; separators one/two spaces, tab, none; tokens incl. spaces, '=', opaque bytes >= 0x80), interleaved with other headers, combined with request targets in origin or absolute form with 0..3 query pairs (names token / percent-encoded spellings of token / near misses; values with '+', valid, truncated and invalid percent escapes, ill-formed UTF-8, '='; empty pairs) or raw query bytes; non-trivial = at least two Authorization headers, or both a Bearer header and a token parameter");
     ctx.rule("client_roundtrip: arbitrary Unicode tokens sent the two ways the relay client sends them; non-trivial = token with characters special to either encoding");
@@ -378,4 +402,5 @@ pub fn run(ctx: &Ctx) {
     let k = ctx.tier.pick(1, 10);
     ctx.explore("extraction", ExploreOpts::new(120_000 * k), strategy, run_case);
     ctx.explore("client_roundtrip", ExploreOpts::new(20_000 * k), token_strategy, token_roundtrip);
+    ctx.fuzz_campaign("c12_request", ctx.tier.pick(0, 1_500_000), 256, fuzz_request_seeds(), &fuzz_request);
 }
